@@ -1,8 +1,10 @@
-"""Apply a seeded change to /repo, confirm it (suite green, demo fails), run the given checks, undo it.
+"""Apply a seeded change to a scratch worktree of /repo, confirm it (suite green, demo fails), run the given checks
+against that worktree (PYTHONPATH + PYVC_REPO), remove the worktree.  /repo itself is not touched.
 usage: tools/seedrun.py <dir with patch.diff [+ demo.py]> <Cxx> [<Cxx> ...]"""
 import os
 import subprocess
 import sys
+import tempfile
 
 ROOT = os.path.dirname(os.path.dirname(os.path.abspath(__file__)))
 
@@ -15,35 +17,40 @@ def main():
     d = os.path.abspath(sys.argv[1])
     props = sys.argv[2:]
     patch = os.path.join(d, "patch.diff")
-    st = sh("git -C /repo status --porcelain")
-    if st.stdout.strip():
-        print("refusing: /repo has uncommitted changes")
-        return 2
     demo = os.path.join(d, "demo.py")
-    if os.path.exists(demo):
-        r = sh(f"cd /repo && PYTHONPATH=/repo /venv/bin/python {demo}")
-        print(f"demo on clean tree: exit {r.returncode}")
-    a = sh(f"git -C /repo apply {patch}")
-    if a.returncode != 0:
-        print("patch does not apply:", a.stderr[:300])
+    wt = tempfile.mkdtemp(prefix="seedwt", dir="/tmp")
+    os.rmdir(wt)
+    r = sh(f"git -C /repo worktree add -q --detach {wt} HEAD")
+    if r.returncode:
+        print("worktree failed", r.stderr)
         return 2
     try:
-        t = sh("cd /repo && /venv/bin/python -m pytest -q -p no:cacheprovider tests 2>&1 | tail -1")
+        if os.path.exists(demo):
+            r = sh(f"cd {wt} && PYTHONPATH={wt} /venv/bin/python {demo}")
+            print(f"demo on clean tree: exit {r.returncode}")
+        a = sh(f"git -C {wt} apply {patch}")
+        if a.returncode != 0:
+            print("patch does not apply:", a.stderr[:300])
+            return 2
+        t = sh(f"cd {wt} && /venv/bin/python -m pytest -q -p no:cacheprovider tests 2>&1 | tail -1")
         print("suite with change:", t.stdout.strip())
         if os.path.exists(demo):
-            r = sh(f"cd /repo && PYTHONPATH=/repo /venv/bin/python {demo}")
+            r = sh(f"cd {wt} && PYTHONPATH={wt} /venv/bin/python {demo}")
             print(f"demo with change: exit {r.returncode}")
+        ev = tempfile.mkdtemp(prefix="seedev", dir="/tmp")
+        env = dict(os.environ, PYTHONPATH=wt, PYVC_REPO=wt + "/", PYVC_EVIDENCE_DIR=ev)
         for p in props:
-            r = sh(f"cd {ROOT} && ./check {p} --tier quick", timeout=3000)
+            r = sh(f"cd {ROOT} && ./check {p} --tier quick", timeout=3000, env=env)
             viol = [ln for ln in r.stdout.splitlines() if ln.startswith(("VIOLATION", "CHECKER", "UNDECIDED"))]
             print(f"  {p}: exit {r.returncode}; {len(viol)} lines; " + (viol[0][:230] if viol else ""))
             for ln in r.stdout.splitlines():
                 if ln.strip().startswith(("witness:", "CONFIRMED", "replayed")):
-                    print("      " + ln.strip()[:200])
+                    print("      " + ln.strip()[:260])
                     break
+            print("      " + r.stdout.strip().splitlines()[-1][:200] if r.stdout.strip() else "")
+        sh(f"rm -rf {ev}")
     finally:
-        sh("git -C /repo checkout -- . && git -C /repo clean -fdq schwifty")
-    print("restored:", sh("git -C /repo status --porcelain").stdout.strip() or "clean")
+        sh(f"git -C /repo worktree remove --force {wt}")
     return 0
 
 
